@@ -106,7 +106,9 @@ def test_callable_spec(callable, callable_args, callable_kwargs):
             inspect.ismethod(callable)
     ):
         # Strip 'self'
-        args = args[1:]
+        bound_arg, args = args[0], args[1:]
+    else:
+        bound_arg = None
 
     arg_usage = dict([(arg, 0,) for arg in args])
     vararg_usage = 0
@@ -140,6 +142,10 @@ def test_callable_spec(callable, callable_args, callable_kwargs):
             missing_args.append(key)
         elif usage > 1:
             multiple_args.append(key)
+    if inspect.ismethod(callable) and bound_arg in callable_kwargs:
+        # A request parameter named like the bound first argument
+        # ("self") collides with it even if the handler takes **kwargs.
+        multiple_args.append(bound_arg)
 
     if missing_args:
         # In the case where the method allows body arguments
